@@ -257,6 +257,17 @@ fn shape_hash(m: &Model) -> u64 {
 
 /// Runs one sequence on a fresh real heap next to the model.  Returns Err(description) on the
 /// first disagreement.
+/// repr of node `id` = (id + REPR_SALT) % 4: which container holds the node's edges (Vec, boxed slice, Option + Vec,
+/// OnceCell + boxed slice), so that every container GcTrace implementation is driven; `salt=N` on the command line.
+static REPR_SALT: std::sync::atomic::AtomicU64 = std::sync::atomic::AtomicU64::new(0);
+/// `burst=P`: in random histories an edge insertion becomes, with probability P/100, a burst of 20..70 insertions from
+/// the same node (wide nodes: containers longer than any block size a tracer might use).
+static BURST: std::sync::atomic::AtomicU64 = std::sync::atomic::AtomicU64::new(0);
+
+fn repr_of(id: u32) -> u8 {
+    ((id as u64 + REPR_SALT.load(std::sync::atomic::Ordering::Relaxed)) % 4) as u8
+}
+
 fn run_sequence(ops: &[Op], stats: &mut Stats) -> Result<(), String> {
     let mut heap = Heap::new();
     let mut model = Model::default();
@@ -286,8 +297,14 @@ fn run_sequence(ops: &[Op], stats: &mut Stats) -> Result<(), String> {
         }
         let expected_freed = model.apply(op);
         match op {
-            Op::Alloc => handles.push(heap.alloc((model.num_nodes() - 1) as u32)),
-            Op::AllocView => handles.push(heap.alloc_view((model.num_nodes() - 1) as u32)),
+            Op::Alloc => {
+                let id = (model.num_nodes() - 1) as u32;
+                handles.push(heap.alloc_repr(id, repr_of(id)))
+            }
+            Op::AllocView => {
+                let id = (model.num_nodes() - 1) as u32;
+                handles.push(heap.alloc_view_repr(id, repr_of(id)))
+            }
             Op::Clone(h) => handles.push(heap.clone_handle(handles[h])),
             Op::ViewOf(h) => handles.push(heap.view_of(handles[h])),
             Op::WeakOf(h) => handles.push(heap.weak_of(handles[h])),
@@ -473,6 +490,18 @@ fn random_history(rng: &mut Rng, max_nodes: usize, max_ops: usize) -> Vec<Op> {
         };
         model.apply(op);
         ops.push(op);
+        if let Op::AddEdge(h, _) = op {
+            let burst = BURST.load(std::sync::atomic::Ordering::Relaxed);
+            if burst > 0 && rng.below(100) < burst {
+                let k = 20 + rng.below(51);
+                for _ in 0..k {
+                    let h2 = held[rng.below(held.len() as u64) as usize];
+                    let op2 = Op::AddEdge(h, h2);
+                    model.apply(op2);
+                    ops.push(op2);
+                }
+            }
+        }
         if model.handles.len() > 4096 {
             break;
         }
@@ -498,7 +527,16 @@ fn print_stats(mode: &str, stats: &Stats) {
 
 fn main() {
     install_quiet_panic_hook();
-    let args: Vec<String> = std::env::args().collect();
+    let mut args: Vec<String> = Vec::new();
+    for a in std::env::args() {
+        if let Some(v) = a.strip_prefix("salt=") {
+            REPR_SALT.store(v.parse().unwrap(), std::sync::atomic::Ordering::Relaxed);
+        } else if let Some(v) = a.strip_prefix("burst=") {
+            BURST.store(v.parse().unwrap(), std::sync::atomic::Ordering::Relaxed);
+        } else {
+            args.push(a);
+        }
+    }
     let mut stats = Stats::default();
     match args.get(1).map(|s| s.as_str()) {
         Some("exhaustive") => {
